@@ -111,6 +111,10 @@ def run(seed: int = 0, cases: int = 300) -> List[str]:
             expect('%r in %r' % (pt, ps), _val(S.contains(pt)), pt in ps)
             expect('%r.find(%r)' % (ps, pt), _val(S.find(pt)), ps.find(pt))
             expect('%r == %r' % (ps, pt), _val(S == pt), ps == pt)
+            expect('%r < %r' % (ps, pt), _val(S < pt), ps < pt)
+            expect('%r <= %r' % (ps, pt), _val(S <= pt), ps <= pt)
+            expect('%r > %r' % (ps, pt), _val(S > _str(pt)), ps > pt)
+            expect('%r >= %r' % (ps, pt), _val(S >= _str(pt)), ps >= pt)
             if pt:
                 expect('%r.partition(%r)' % (ps, pt), _val(S.partition(pt)), ps.partition(pt))
             if hasattr(S, 'rfind'):
